@@ -194,11 +194,81 @@ class DefUse:
             self._operand(rv["b"], sl, seen, deep)
         elif k == "agg":
             ops = rv["ops"]
+            if rv["ak"] in ("closure", "coroutine", "coroutine_closure") and deep and CLOSURE_INFO is not None:
+                info = CLOSURE_INFO(norm(rv["def"]))
+                if info is not None:
+                    sl.fields |= info[0]
+                    for c in info[1]:
+                        sl.calls.setdefault(c, set())
+                    for c in info[2]:
+                        sl.decls.setdefault(c, set())
             if field is not None and rv["ak"] in ("tuple", "adt", "closure", "coroutine") and field < len(ops):
                 self._operand(ops[field], sl, seen, deep)
             else:
                 for o in ops:
                     self._operand(o, sl, seen, deep)
+
+
+CLOSURE_INFO = None   # set by facts: closure path -> (fields read/written in its body, resolved callees, declared callees)
+
+
+def install_closure_info(F):
+    global CLOSURE_INFO
+    cache = {}
+
+    def info(path, depth=0):
+        if path in cache:
+            return cache[path]
+        b = F.bodies.get(path)
+        if b is None:
+            for c in ("server_proxy", "coordinator", "mem_broker"):
+                for x in F.by_crate[c]:
+                    if x.path == path:
+                        b = x
+        if b is None:
+            cache[path] = None
+            return None
+        cache[path] = (set(), set(), set())
+        fields, calls, decls = set(), set(), set()
+
+        def pl(p):
+            if p is None:
+                return
+            for e in p["p"]:
+                if isinstance(e, dict) and "name" in e and e.get("adt"):
+                    a = norm(e["adt"])
+                    if not a.endswith("}"):      # skip captured-variable pseudo fields
+                        fields.add((a, e["name"]))
+
+        def op(o):
+            if o:
+                pl(o.get("cp") or o.get("mv"))
+        for blk in b.blocks:
+            for st in blk.stmts:
+                if st["k"] != "assign":
+                    continue
+                pl(st["place"])
+                rv = st["rv"]
+                pl(rv.get("p"))
+                op(rv.get("a")); op(rv.get("b"))
+                for o in rv.get("ops", []):
+                    op(o)
+                if rv["k"] == "agg" and rv.get("ak") in ("closure", "coroutine", "coroutine_closure") and depth < 4:
+                    sub = info(norm(rv["def"]), depth + 1)
+                    if sub:
+                        fields.update(sub[0]); calls.update(sub[1]); decls.update(sub[2])
+            t = blk.term
+            if t["k"] == "call":
+                for a in t["args"]:
+                    op(a)
+                c = callee_of(t); d = callee_decl(t)
+                if c:
+                    calls.add(c)
+                if d:
+                    decls.add(d)
+        cache[path] = (fields, calls, decls)
+        return cache[path]
+    CLOSURE_INFO = info
 
 
 PASSTHROUGH = {
